@@ -21,6 +21,7 @@ import (
 	"fmt"
 	"math"
 	"os"
+	"sort"
 	"strconv"
 	"strings"
 	"time"
@@ -46,6 +47,13 @@ const (
 	pPostfix = 9
 	pPrimary = 10
 )
+
+// every word the lexer does not give back as ID: parser.Dictionary() = keywords and builtins
+var reservedWords = func() []string {
+	w := parser.Dictionary()
+	sort.Strings(w)
+	return w
+}()
 
 type gen struct {
 	rng   *vlib.Rand
@@ -340,6 +348,10 @@ func genProgram(rng *vlib.Rand, fl genFlags) (string, []string, []string, map[st
 	if fl.qkeys && rng.Chance(50) {
 		key = "\"k 1\""
 		g.feats["quoted-key"] = true
+	} else if fl.qkeys && rng.Chance(50) {
+		// a key spelled like a builtin or a keyword has to stay quoted
+		key = "\"" + vlib.Pick(rng, reservedWords) + "\""
+		g.feats["reserved-word-key"] = true
 	}
 	lim := ""
 	if rng.Chance(30) {
@@ -1274,6 +1286,11 @@ func checkProgram(out *vlib.Out, src string, what string) (formatted string, acc
 			cl += "/sub-millisecond-expiry"
 		case strings.Contains(src, "by \""):
 			cl += "/quoted-key"
+			for _, w := range reservedWords {
+				if strings.Contains(src, "\""+w+"\"") {
+					cl = "formatted-output-unparsable/reserved-word-key"
+				}
+			}
 		}
 		cs["formatted"] = vlib.Q(o1)
 		out.Violate(cl, fmt.Sprintf("the formatted program does not parse: %v", strings.SplitN(err.Error(), "\n", 2)[0]), cs)
@@ -1329,6 +1346,13 @@ func main() {
 			out.Violate("witness-rejected", "a fixed witness program is no longer accepted by the checker", map[string]any{"kind": "program", "src": vlib.Q(w)})
 		}
 		out.Count("program/witness")
+	}
+	for _, w := range reservedWords {
+		src := "counter events by \"" + w + "\", k as \"" + w + "\"\n/(x)/ {\n  events[$1][$1]++\n}\n"
+		if _, ok := checkProgram(out, src, "reserved-word"); !ok {
+			out.Violate("witness-rejected", "a program with the key \""+w+"\" is not accepted by the checker", map[string]any{"kind": "program", "src": vlib.Q(src)})
+		}
+		out.Count("program/reserved-word-key")
 	}
 	accepted, rejected, outside, orderSkew := 0, 0, 0, 0
 	seenLit := map[string]bool{}
